@@ -1,207 +1,12 @@
 -------------------------------- MODULE Codec --------------------------------
 (***************************************************************************)
-(* The MPQ codec layer (property C03; re-used by MpqBuild for C01).        *)
-(*                                                                         *)
-(* What is modelled (transcribed from compression/compress.rs,             *)
-(* compression/decompress.rs, compression/methods.rs, security.rs):        *)
-(*   - selector classification (CompressionMethod::from_flags);            *)
-(*   - the compressor's pipeline per selector (compress_internal,          *)
-(*     compress_multiple) incl. the selectors it refuses;                  *)
-(*   - the store-raw rule  1 + |c| >= |x|  =>  out = x,  else <<m>> \o c;   *)
-(*   - the decompressor's pipeline per selector (decompress_with_monitor,  *)
-(*     decompress_multiple_internal) incl. the expected-size argument it   *)
-(*     hands to each stage;                                                *)
-(*   - the limit checks in the order the code applies them                 *)
-(*     (validate_file_bounds, detect_compression_bomb_patterns with the    *)
-(*     adaptive table, monitor size, final +-10% check).                   *)
-(* Codecs themselves are uninterpreted: a stage s applied to a term t is   *)
-(* the term <<s, t>>; un-applying s from <<s, t>> yields t, from anything  *)
-(* else "garbage".  Lengths are abstract naturals chosen by the model.     *)
-(*                                                                         *)
-(* Where today's code deviates from the ideal (decode pipeline is not the  *)
-(* reverse of the encode pipeline; limits reject the compressor's own      *)
-(* output) the deviation is a NAMED predicate, so that every other state   *)
-(* must satisfy the invariant and TLC shows the deviation on the model.    *)
+(* The MPQ codec layer as a state machine (property C03).  The constant-   *)
+(* level definitions (selector classification, compressor / decompressor   *)
+(* pipelines, store-raw rule, limit checks, named deviations) live in      *)
+(* CodecDefs.tla so that MpqBuild.tla (C01) can re-use them without this   *)
+(* module's state variables.                                               *)
 (***************************************************************************)
-EXTENDS Integers, Sequences, FiniteSets, TLC
-LOCAL INSTANCE Bitwise
-
-HUFFMAN      == 1
-ZLIB         == 2
-IMPLODE      == 4
-PKWARE       == 8
-BZIP2        == 16
-SPARSE       == 32
-ADPCM_MONO   == 64
-ADPCM_STEREO == 128
-LZMA         == 18          \* 0x12: a value, not a flag combination
-
-Selectors == 0..255
-Has(m, f) == (m & f) # 0
-
-\* CompressionMethod::from_flags
-KindOf(m) ==
-  IF m = LZMA THEN "lzma"
-  ELSE CASE m = 0            -> "none"
-         [] m = HUFFMAN      -> "huffman"
-         [] m = ZLIB         -> "zlib"
-         [] m = IMPLODE      -> "implode"
-         [] m = PKWARE       -> "pkware"
-         [] m = BZIP2        -> "bzip2"
-         [] m = SPARSE       -> "sparse"
-         [] m = ADPCM_MONO   -> "adpcm_mono"
-         [] m = ADPCM_STEREO -> "adpcm_stereo"
-         [] OTHER            -> "multi"
-
-Lossy(stage) == stage \in {"adpcm_mono", "adpcm_stereo"}
-\* stages the library has an encoder for (huffman::compress and implode::compress return Err)
-HasEncoder(stage) == stage \notin {"huffman", "implode"}
-
----------------------------------------------------------------------------
-(* The compressor.  CompressPlan(m) = [ok, stages]: the stage sequence     *)
-(* compress_internal applies, or ok = FALSE when it returns Err for every  *)
-(* non-empty input.                                                        *)
-
-Secondary(m) == \* the non-ADPCM methods compress_multiple counts
-  <<Has(m, HUFFMAN), Has(m, ZLIB), Has(m, PKWARE), Has(m, BZIP2), Has(m, SPARSE)>>
-SecondaryCount(m) == Cardinality({j \in 1..5 : Secondary(m)[j]})
-\* "if has_huffman .. else if has_zlib .. else if has_bzip2 .. else if has_sparse .. else if has_pkware"
-SecondaryStage(m) == IF Has(m, HUFFMAN) THEN "huffman" ELSE IF Has(m, ZLIB) THEN "zlib"
-                     ELSE IF Has(m, BZIP2) THEN "bzip2" ELSE IF Has(m, SPARSE) THEN "sparse" ELSE "pkware"
-\* "if has_adpcm_mono .. else if has_adpcm_stereo"
-EncAdpcm(m) == IF Has(m, ADPCM_MONO) THEN <<"adpcm_mono">>
-               ELSE IF Has(m, ADPCM_STEREO) THEN <<"adpcm_stereo">> ELSE <<>>
-
-CompressPlan(m) ==
-  LET kd == KindOf(m) IN
-  IF kd = "none" THEN [ok |-> TRUE, stages |-> <<>>]
-  ELSE IF kd # "multi" THEN [ok |-> HasEncoder(kd), stages |-> <<kd>>]
-  ELSE IF SecondaryCount(m) = 0 THEN [ok |-> TRUE, stages |-> EncAdpcm(m)]        \* "handle it gracefully"
-  ELSE IF SecondaryCount(m) > 1 THEN [ok |-> FALSE, stages |-> <<>>]              \* "not yet supported"
-  ELSE [ok |-> HasEncoder(SecondaryStage(m)), stages |-> EncAdpcm(m) \o <<SecondaryStage(m)>>]
-
-\* ADPCM needs whole 16-bit samples per channel (compress_internal of adpcm.rs)
-AdpcmAligned(m, n) ==
-  LET st == CompressPlan(m).stages IN
-  IF st = <<>> \/ ~Lossy(st[1]) THEN TRUE
-  ELSE IF st[1] = "adpcm_mono" THEN n % 2 = 0 ELSE n % 4 = 0
-
-\* The selectors the property quantifies over with a success obligation:
-\* the five lossless single methods ...
-LosslessSingles == {ZLIB, PKWARE, BZIP2, LZMA, SPARSE}
-\* ... and the combinations the library has encoders and decoders for: one ADPCM flavour, optionally
-\* followed by one of zlib / pkware / bzip2 / sparse.  (HUFFMAN and IMPLODE have no encoder.)
-AdpcmSelectors == {a + s : a \in {ADPCM_MONO, ADPCM_STEREO}, s \in {0, ZLIB, PKWARE, BZIP2, SPARSE}}
-Supported(m) == m \in LosslessSingles \cup AdpcmSelectors
-LossySel(m)  == Has(m, ADPCM_MONO) \/ Has(m, ADPCM_STEREO)
-
-\* the store-raw rule of compress(): n = |input|, c = |pipeline output|
-StoresRaw(n, c) == 1 + c >= n
-OutLen(n, c)    == IF StoresRaw(n, c) THEN n ELSE 1 + c
-
----------------------------------------------------------------------------
-(* The decompressor.  DecompressPlan(m) = sequence of [stage, exp]: the    *)
-(* stages decompress_with_monitor / decompress_multiple_internal apply, in *)
-(* order, with the expected-size argument each receives:                   *)
-(*   "n" the caller's size, "x4" = 4n, "est" = a max(..) estimate.         *)
-
-DecAdpcm(m) == IF Has(m, ADPCM_STEREO) THEN <<[stage |-> "adpcm_stereo", exp |-> "n"]>>   \* both bits: "assume stereo"
-               ELSE IF Has(m, ADPCM_MONO) THEN <<[stage |-> "adpcm_mono", exp |-> "n"]>> ELSE <<>>
-DecPrimary(m) ==
-  IF Has(m, HUFFMAN) THEN <<[stage |-> "huffman", exp |-> "est"]>>
-  ELSE IF Has(m, ZLIB) THEN <<[stage |-> "zlib", exp |-> "x4"]>>
-  ELSE IF Has(m, BZIP2) THEN <<[stage |-> "bzip2", exp |-> "x4"]>>
-  ELSE IF Has(m, SPARSE) THEN <<[stage |-> "sparse", exp |-> "x4"]>>
-  ELSE IF Has(m, IMPLODE) THEN <<[stage |-> "implode", exp |-> "x4"]>> ELSE <<>>
-DecPkware(m) == IF Has(m, PKWARE) THEN <<[stage |-> "pkware", exp |-> "est"]>> ELSE <<>>
-
-DecompressPlan(m) ==
-  LET kd == KindOf(m) IN
-  IF kd = "none" THEN <<>>
-  ELSE IF kd # "multi" THEN <<[stage |-> kd, exp |-> "n"]>>
-  ELSE DecPrimary(m) \o DecPkware(m) \o DecAdpcm(m)
-  \* (the tail "single method detected -> decode the original data again with exp = n" re-does the primary
-  \*  stage when there is neither ADPCM nor PKWARE; it yields the same term, but only after the "x4" call
-  \*  has succeeded)
-
-\* bzip2::decompress demands |output| = expected_size exactly; every other stage tolerates a larger bound
-StrictSize(stage) == stage = "bzip2"
-
-\* Codec-internal mode: the wrapper picks one when encoding; the wrapped decoder implements a set.
-\* pkware.rs encodes with pklib::implode_bytes(.., CompressionMode::ASCII, ..) and decodes with
-\* implode::exploder::Exploder, whose literal mode 1 (ASCII) is `unimplemented!()`.
-EncMode(stage)  == IF stage = "pkware" THEN "ascii" ELSE "std"
-DecModes(stage) == IF stage = "pkware" THEN {"binary"} ELSE {"std"}
-
-\* symbolic evaluation: stage s applied to term t is <<s, mode, t>>
-Encode(stages, t) == LET F[j \in 0..Len(stages)] == IF j = 0 THEN t ELSE <<stages[j], EncMode(stages[j]), F[j-1]>>
-                     IN F[Len(stages)]
-Garbage  == <<"garbage">>
-Panicked == <<"panic">>
-Unapply(d, t) == IF t = Panicked THEN Panicked
-                 ELSE IF t = Garbage \/ Len(t) # 3 \/ t[1] # d.stage THEN Garbage
-                 ELSE IF t[2] \notin DecModes(d.stage) THEN Panicked             \* unimplemented!() in the decoder
-                 ELSE IF StrictSize(d.stage) /\ d.exp # "n" THEN Garbage        \* Err(size mismatch)
-                 ELSE t[3]
-Decode(plan, t) == LET F[j \in 0..Len(plan)] == IF j = 0 THEN t ELSE Unapply(plan[j], F[j-1]) IN F[Len(plan)]
-
-Src == <<"x">>
-\* the decode pipeline undoes the encode pipeline
-Inverts(m) == Decode(DecompressPlan(m), Encode(CompressPlan(m).stages, Src)) = Src
-StageSet(sq) == {sq[j] : j \in 1..Len(sq)}
-
-(* Named deviations of decompress_multiple_internal from "reverse of compress_multiple":          *)
-DevMultiBzip2StrictSize(m) ==      \* multi selectors hand 4n to bzip2::decompress, which wants the exact size
-  KindOf(m) = "multi" /\ ~Has(m, HUFFMAN) /\ ~Has(m, ZLIB) /\ Has(m, BZIP2)
-DevBothAdpcmBits(m) ==             \* encoder picks mono, decoder "assumes stereo"
-  Has(m, ADPCM_MONO) /\ Has(m, ADPCM_STEREO)
-DevIgnoredBit(m) ==                \* encoder ignores IMPLODE / second bits that the decoder acts on
-  KindOf(m) = "multi" /\ CompressPlan(m).ok
-  /\ {d.stage : d \in {DecompressPlan(m)[j] : j \in 1..Len(DecompressPlan(m))}}
-       # {CompressPlan(m).stages[j] : j \in 1..Len(CompressPlan(m).stages)}
-DevPkwareAsciiMode(m) ==          \* the encoder's mode is one the decoder does not implement (it panics)
-  \E st \in StageSet(CompressPlan(m).stages) : EncMode(st) \notin DecModes(st)
-DispatchDeviation(m) == DevMultiBzip2StrictSize(m) \/ DevBothAdpcmBits(m) \/ DevIgnoredBit(m) \/ DevPkwareAsciiMode(m)
-\* the outcome class the model predicts for decoding the compressor's own (admitted) output
-DecodeClass(m) == LET t == Decode(DecompressPlan(m), Encode(CompressPlan(m).stages, Src)) IN
-                  IF t = Src THEN "ok" ELSE IF t = Panicked THEN "panic" ELSE "err"
-
----------------------------------------------------------------------------
-(* Limits (security.rs), SecurityLimits::default().  d = |data| handed to  *)
-(* decompress (without the method byte), n = expected size.                *)
-
-MaxRatio        == 1000
-MaxDecompressed == 104857600        \* 100 MB
-MaxSession      == 1073741824       \* 1 GB
-
-AdaptiveLimit(d, m) ==
-  LET sz == IF d <= 512 THEN MaxRatio * 10 ELSE IF d <= 4096 THEN MaxRatio * 5
-            ELSE IF d <= 65536 THEN MaxRatio * 2 ELSE IF d <= 1048576 THEN MaxRatio ELSE MaxRatio \div 2
-      mb == CASE m = 2  -> sz * 2  [] m = 16 -> sz * 3 [] m = 18 -> sz * 4 [] m = 32 -> sz \div 2
-              [] m = 8  -> sz      [] m = 1  -> sz \div 2 [] m \in {64, 128} -> sz * 2 [] OTHER -> sz
-  IN  IF mb < 50 THEN 50 ELSE IF mb > 50000 THEN 50000 ELSE mb
-
-\* the verdict of validate_decompression_operation, in the order of the code
-PreCheck(m, d, n) ==
-  IF d = 0 THEN "err:Compression"                                      \* "Empty compressed data"
-  ELSE IF n > MaxSession THEN "err:ResourceExhaustion"
-  ELSE IF n > MaxDecompressed THEN "err:ResourceExhaustion"
-  ELSE IF n > 0 /\ n \div d > MaxRatio THEN "err:CompressionBomb"        \* validate_file_bounds: BEFORE the adaptive table
-  ELSE IF n > 0 /\ n \div d > AdaptiveLimit(d, m) THEN "err:CompressionBomb"
-  ELSE IF d < 100 /\ n > 10485760 THEN "err:MaliciousContent"
-  ELSE IF m > 128 /\ n > 0 /\ n \div d > AdaptiveLimit(d, m) \div 2 THEN "err:CompressionBomb"
-  ELSE "ok"
-
-MonitorMax(n) == IF n < MaxDecompressed THEN n ELSE MaxDecompressed
-\* after the pipeline: monitor.check_progress(actual), then validate_decompression_result(n, actual, 10)
-PostCheck(n, actual) ==
-  IF actual > MonitorMax(n) THEN "err:ResourceExhaustion"
-  ELSE IF n = 0 THEN "ok"
-  ELSE LET tol == (n * 10) \div 100 IN
-       IF actual < n - tol \/ actual > n + tol THEN "err:Compression" ELSE "ok"
-
-\* the region of finding F-C03-a: the fixed 1000:1 test refuses what the compressor emitted
-BombHeuristicRejectsOwnOutput(d, n) == d > 0 /\ n \div d > MaxRatio
+EXTENDS CodecDefs
 
 ---------------------------------------------------------------------------
 (* State machine: one behaviour = one compress / decompress round trip.    *)
